@@ -2,12 +2,14 @@ import Tcs.Generated.HandlerSrc
 namespace Tcs
 
 /-- `WebServer::config` registers ONE scope at the root, wrapped in the default-headers middleware and in nothing else,
-    containing the index route and the four protocol services, and nothing outside that scope (C20: every response is
+    containing the index route and the four protocol services, and nothing outside that scope (`"DefaultHeaders"` = a
+    `middleware::DefaultHeaders::new()` with `.add`s only, whose header list is tied by `handlerSrc_routes`; arguments hoisted
+    into `let` bindings are inlined by the translator) (C20: every response is
     produced under the wrapper; `serve` = `route` followed by the header) -/
 theorem handlerSrc_scope :
     HandlerSrc.scopeChain =
       [("scope", ""), ("app_data", "web::Data::new(self.server_state.clone())"),
-       ("wrap", "middleware::DefaultHeaders::new().add((\"Cache-Control\",\"no-store,max-age=0\")),"),
+       ("wrap", "DefaultHeaders"),
        ("service", "index"), ("service", "api_scope()"), ("around", "cfg.service(|);")] ∧
     HandlerSrc.apiServices = ["get_child_version::service", "add_version::service", "get_snapshot::service", "add_snapshot::service"] ∧
     HandlerSrc.indexRoute = ("GET", "/") := ⟨rfl, rfl, rfl⟩
